@@ -55,6 +55,11 @@ CHECKS = {
     category="model_checking", design_ref="4 C13",
     text="TLC enumerates every history of estimate calls of length 2 (thorough: plus 1500 of length 3) over 6 measurement lists (same structure with other answers, other query spectrum, grown, shrunk, re-spelled) x total omitted/given x MD/RDA/IG, cold and warm, checking that a cold call reads no field written by an earlier call and that no write targets a handed-out model. Each history is executed on ONE FactoredInference object with structural zeros: every cold result must equal a fresh engine's result on all attribute subsets and the joint (1e-10 x total), every model returned earlier is re-queried after each later call, returned objects must be distinct, and the caller's lists, arrays, zero specification and options are compared with deep copies. Warm engines must reach the cold optimum (loss within 1e-4) on grown or changed lists.",
     note="The spec's write sets are a transcription of _setup/estimate; the replay is what binds them. eigsh start vectors absorbed by the 1e-10 slack."),
+ "C03": dict(
+    technique="TLA+ optimality oracle (spec/est/OptInstances.tla: KKT certificate in integers, model-checked against brute force: OracleSound, GapBound) supplying exact optima for real solver runs; line search bound by spec/est/Solvers.tla + SolverTrace.tla; arbitrary inputs decided by the gap bound the spec validates",
+    category="model_checking", design_ref="4 C03",
+    text="TLC certifies candidate (witness table, measurement set) pairs from six constructive families (realisable, replicated and nested with cancelling weighted residuals, boundary optima, cyclic, random perturbations) by checking the KKT conditions in integer arithmetic, and on the small instances confirms by brute force over every non-negative integer table with the same total that no table does better (OracleSound) and that L(q)-L* <= sum q (G_q - min G_q) (GapBound). Each certified instance is estimated with MD, RDA and IG (3000 iterations; a third of them after an earlier call with other answers on the same engine); the loss recomputed from model.project must lie in [L*-1e-9, L*+1e-4 max(1,L0-L*)] and agree with the loss of model.datavector; runs of 1,2,5,50 iterations must not be worse than uniform and their hook-H2 streams must be behaviours of the line-search spec. Noisy inputs with given or estimated total are decided by the gap bound (<= 1e-2 of its value at the uniform start).",
+    note="Level for the convergence clause: exploration against a model-checked oracle (fixed 3000 iterations; rate not derived). Gap bound evaluated in floats by the driver. L2 metric only."),
 }
 
 NOT_YET = "check not built yet (work in progress, see DESIGN.md section 8 build order)"
